@@ -66,11 +66,13 @@ def prepare_eval():
 
 
 def build_eval(chk, cfg):
-    tc, feats, prof = chk.CFGS[cfg]
+    tc, feats, prof = chk.CFGS[cfg][:3]
     cmd = ['cargo'] + (['+nightly'] if tc == 'nightly' else []) + ['build', '--offline', '--profile', prof, '--target-dir', EVAL_ROOT + '/target/' + cfg]
     if feats:
         cmd += ['--features', feats]
     e = dict(os.environ, CARGO_NET_OFFLINE='true', ENCVERIF_CFG=cfg)
+    if len(chk.CFGS[cfg]) > 3:
+        e['RUSTFLAGS'] = chk.CFGS[cfg][3]
     rc, out = sh(cmd, cwd=EVAL_ROOT + '/harness', env=e)
     return rc == 0, out[-800:]
 
